@@ -3,9 +3,7 @@ package types
 import (
 	"bytes"
 	"fmt"
-	"io/ioutil"
 	"math/big"
-	"os"
 	"time"
 
 	errorsmod "cosmossdk.io/errors"
@@ -208,15 +206,11 @@ func verifyCascadingFields(header Header) error {
 	if verifSkipSeal() {
 		return nil
 	}
-	cachedir, err := ioutil.TempDir("", "")
-	if err != nil {
-		fmt.Println(err)
-		return errEthashStopped
-	}
-	defer os.RemoveAll(cachedir)
+	// the verification cache is generated in memory: whether a header is accepted must
+	// not depend on the node's file system (a node without a usable temporary directory
+	// used to reject every header)
 	config := Config{
-		CacheDir:     cachedir,
-		CachesOnDisk: 1,
+		CachesInMem: 1,
 	}
 	ethash := New(config, nil, false)
 	defer ethash.Close()
